@@ -60,10 +60,11 @@ pub(super) fn view_point(accept: &Accept) -> crate::verif::Point {
 
 pub(crate) fn peer_of(io: &MioStream) -> String {
     match io {
-        MioStream::Tcp(s) => s
-            .peer_addr()
-            .map(|a| a.to_string())
-            .unwrap_or_else(|_| "?".to_owned()),
+        // peer and local address: one client port may be in use towards two listeners at once
+        MioStream::Tcp(s) => match (s.peer_addr(), s.local_addr()) {
+            (Ok(peer), Ok(local)) => format!("{peer}>{local}"),
+            _ => "?".to_owned(),
+        },
         MioStream::Uds(s) => s
             .peer_addr()
             .ok()
